@@ -208,6 +208,18 @@ def unused_table(run):
         one('module-level-global-then-assignment', 'global unused_v\nunused_v = 1\n', [], path)
         one('function-global-then-assignment', 'def f_():\n    global unused_v\n    unused_v = 1\n', [], path)
         one('function-nonlocal-rebinding', 'def f_():\n    v_ = 1\n    def g_():\n        nonlocal v_\n        v_ = 2\n    return g_, v_\n', [], path)
+        # the variable of a comprehension is the comprehension's own: a nonlocal declaration of the same identifier does not exempt it (a walrus there it does)
+        one('comprehension-variable-named-like-a-nonlocal', 'def f_():\n    vv = 1\n    def g_():\n        nonlocal vv\n        vv = 2\n        return [0 for vv in ()]\n    return g_\n',
+            [('W01', 'Unused name: vv', 2, 4), ('W01', 'Unused name: vv', 6, 22)], path)
+        one('walrus-in-a-comprehension-rebinding-a-nonlocal', 'def f_():\n    vv = 1\n    def g_():\n        nonlocal vv\n        return [(vv := 2) for w_ in (1,) if w_]\n    return g_\n',
+            [('W01', 'Unused name: vv', 2, 4)], path)
+        # a capture that every alternative of an or-pattern binds is one binding, reported once - also when an alternative holds an or-pattern of its own
+        for label, pat, col in (('capture', '[1, unused_v] | [(2 | 3), unused_v]', 17), ('starred-capture', '[1, *unused_v] | [(2 | 3), *unused_v]', 18),
+                                ('as-capture', '(1 as unused_v) | ((2 | 3) as unused_v) | (4 as unused_v)', 19),
+                                ('mapping-rest', '{"k": 1, **unused_v} | {"j": (2 | 3), **unused_v}', 24),
+                                ('capture-after-the-nested-alternative', '[1, unused_v] | [(2 | 3), 5, unused_v] | [6, 7, 8, unused_v]', 17)):
+            one('or-pattern-with-a-nested-or-pattern[%s]' % label, 'def f_(s_):\n    match s_:\n        case %s:\n            return 1\n' % pat,
+                [('W01', 'Unused name: unused_v', 3, col)], path)
     core.explore(lambda: None, lambda p, out: go(p))
 
 
